@@ -369,6 +369,7 @@ def family_list(tier: str) -> list[tuple[str, ...]]:
     return fams
 
 
+QUICK_B_N3 = (0, 1, 2, 3, 4, 5, 6, 8, 10, 12, 15, 20, 25, 29, 30)  # quick tier, cycles of three templates
 TAIL_B = (0, 2, 30)  # block depths at which the cycle is also entered from outside (n <= 2)
 CTX3 = {"context_depth_limit": 3}
 SMALL_LIMITS = [{"context_depth_limit": 1}, CTX3, {"context_depth_limit": 10}]
@@ -387,7 +388,8 @@ def render_plan(tier: str, kinds: tuple[str, ...], wrapper: str) -> list[tuple[d
     if tier == "quick":
         if n == 1:
             if wrapper == "if":
-                return base + dict_ + [({}, "lax", "sync", "dict"), ({}, "strict", "async", "caching")] + small
+                nocache = dict_ + [({}, "lax", "sync", "dict")] if core else []
+                return base + nocache + [({}, "strict", "async", "caching")] + small
             if core:
                 return base
             return base if wrapper in ("for", "block", "mixed") else []
@@ -435,7 +437,8 @@ class C09(Check):
         q = tier == "quick"
         return {
             "malformed_k": 4 if q else 5,
-            "tag_skeleton_len": 4,
+            "tag_skeleton_len": "1..4 pieces x trailing text {no,yes} x text between tags {no,yes}"
+                                + (" (text between only for <=3 pieces)" if q else ""),
             "tags": list(GEN.BLOCK_TAGS),
             "lexer_piece_len": 3 if q else 4,
             "liquid_lines": 3 if q else 4,
@@ -447,12 +450,15 @@ class C09(Check):
             "wrappers": "n=1: all 8 for include/render/extends/call, if/for/block/mixed for the other kinds; n=2: if; "
                         "n=3: mixed" if q
             else "n<=2: all 8; n=3: if, for, block, mixed",
-            "block_depth_b": "0..30 (= default block_nesting_limit), every value",
+            "block_depth_b": "every b in 0..30 (= default block_nesting_limit) for cycles of 1 and 2 templates; "
+                             f"b in {list(QUICK_B_N3)} for cycles of 3" if q
+            else "every b in 0..30 (= default block_nesting_limit)",
             "context_depth_limit": "30 (default); also 1,3,10 for n=1 with the if wrapper" if q
             else "30 (default); also 1,3,10 for n=1",
-            "mode_api": "strict/sync (+ lax/sync, strict/async for n=1 with the if wrapper)" if q
+            "mode_api": "strict/sync (+ strict/async for n=1 with the if wrapper, lax/sync for the core kinds)" if q
             else "strict/sync, lax/sync, strict/async for n=1; strict/sync for n>=2",
-            "loader": "caching loader everywhere; non-caching DictLoader additionally for n=1 with the if wrapper" if q
+            "loader": "caching loader everywhere; non-caching DictLoader additionally for n=1 over include/render/extends/call "
+                      "with the if wrapper" if q
             else "caching loader everywhere; non-caching DictLoader additionally for n=1 and for n=2 with if/mixed wrappers",
             "entry_from_outside_the_cycle": "n<=2, b in {0,2,30}, sync+async" + (", if wrapper" if q else ", all wrappers"),
             "recursion_limit": RECURSION_LIMIT,
@@ -500,7 +506,7 @@ class C09(Check):
                 if kind == "M":
                     self.run_malformed(pr, arm, shard[1], shard[2], shard[3])
                 elif kind == "S":
-                    self.run_skeletons(pr, arm, shard[1], shard[2])
+                    self.run_skeletons(pr, arm, shard[1], shard[2], tier)
                 elif kind == "X":
                     self.run_lex(pr, arm, shard[1], shard[2])
                 elif kind == "Q":
@@ -547,9 +553,9 @@ class C09(Check):
             for mode in ("strict", "lax"):
                 pr.one(arm, "M", src, src, mode, nontrivial=markup)
 
-    def run_skeletons(self, pr: ParseRunner, arm: Any, tag: str, first: int) -> None:
+    def run_skeletons(self, pr: ParseRunner, arm: Any, tag: str, first: int, tier: str) -> None:
         fam = "S:" + tag
-        for ident, src, unb in GEN.skeletons(tag, 4, first):
+        for ident, src, unb in GEN.skeletons(tag, 4, first, joiner_max_len=3 if tier == "quick" else 4):
             for mode in ("strict", "lax"):
                 pr.one(arm, fam, ident, src, mode, nontrivial=unb, render_after=True)
 
@@ -581,6 +587,8 @@ class C09(Check):
             if not plan:
                 continue
             for b in range(0, 31):
+                if tier == "quick" and len(kinds) == 3 and b not in QUICK_B_N3:
+                    continue
                 templates = GEN.family_templates(kinds, w, b)
                 for limits, mode, api, ld in plan:
                     self.one_render(res, "R", kinds, links, w, b, templates, limits, mode, api, ld)
